@@ -55,6 +55,7 @@ def all_harnesses():
                                         shape={"side": "writer", "decision": dec, "cap": cap, "initial": init, "need": need,
                                                "peer_consume": m, "peer_pre_step": pre}, core=core)
                             h.foldable = False  # a peer consume inside one query already needs ~5 GB
+                            h.heavy = (m >= 1 and pre < 2 and dec == "wait")
                             hs.append(h)
     for init in (0, 1, 2):
         for push in (False, True):
